@@ -12,6 +12,49 @@ INT_TYPES = {"int": (32, True), "unsigned int": (32, False), "orc_uint32": (32, 
 CASTS = ("ImplicitCastExpr", "CStyleCastExpr", "ParenExpr")
 
 
+def _ity(n):
+    t = (n.get("ty") or "").replace("const ", "").replace("volatile ", "").strip()
+    return INT_TYPES.get(t)
+
+
+def _nonneg(x, depth=0):
+    """True if expression x (of a signed narrow type) can be shown never to be negative: it is a promoted unsigned
+    narrower value, a masked value, or a call to a same-unit function all of whose returns are such values."""
+    x0 = x
+    while x is not None and x.k in CASTS:
+        t = _ity(x)
+        if t is not None and not t[1] and t[0] < 32:
+            return True                       # passed through an unsigned type narrower than int
+        x = x.c[0] if x.c else None
+    if x is None:
+        return False
+    t = _ity(x)
+    if t is not None and not t[1] and t[0] < 32:
+        return True
+    if x.k == "BinaryOperator" and x.op == "&":
+        return any(strip_casts(o) is not None and strip_casts(o).v is not None and 0 <= strip_casts(o).v <= 0x7fffffff for o in x.c[:2])
+    if x.k == "CallExpr" and x.name and depth < 2:
+        g = x.func.tu.fn.get(x.name) if x.func is not None else None
+        if g is None or g.body is None:
+            return False
+        rets = [r for r in g.walk() if r.k == "ReturnStmt" and r.c and r.c[0] is not None]
+        if not rets:
+            return False
+        for r in rets:
+            e = r.c[0]
+            se = strip_casts(e)
+            if se is not None and se.k == "DeclRefExpr" and se.get("dk") == "local":
+                defs = [d.c[0] for d in g.walk() if d.k == "VarDecl" and d.name == se.name and d.c and d.c[0] is not None]
+                defs += [d.c[1] for d in g.walk() if d.k == "BinaryOperator" and d.op == "=" and strip_casts(d.c[0]) is not None
+                         and strip_casts(d.c[0]).k == "DeclRefExpr" and strip_casts(d.c[0]).name == se.name]
+                if not defs or not all(_nonneg(d, depth + 1) for d in defs):
+                    return False
+            elif not _nonneg(e, depth + 1):
+                return False
+        return True
+    return False
+
+
 def _sign_extends(e):
     """description if operand e of a 64-bit `|` is widened from a signed narrower type, else None."""
     chain = []
@@ -21,15 +64,17 @@ def _sign_extends(e):
         x = x.c[0] if x.c else None
     if x is None:
         return None
-    inner = INT_TYPES.get(x.get("ty"))
+    inner = _ity(x)
     if inner is None or inner[0] >= 64:
         return None
     if x.v is not None and x.v >= 0:
         return None
+    if _nonneg(x):
+        return None
     # walk outwards: the first conversion that reaches 64 bits decides
     cur = inner
     for c in reversed(chain):
-        t = INT_TYPES.get(c.get("ty"))
+        t = _ity(c)
         if t is None:
             continue
         if t[0] >= 64:
@@ -44,7 +89,7 @@ def check_or_halves(func, rep, rule, where_txt, inst_prefix=""):
     for node in func.walk():
         if node.k not in ("BinaryOperator", "CompoundAssignOperator") or node.op not in ("|", "|="):
             continue
-        t = INT_TYPES.get(node.get("ty"))
+        t = _ity(node)
         if t is None or t[0] < 64:
             continue
         ops = list(node.c[:2])
@@ -57,6 +102,26 @@ def check_or_halves(func, rep, rule, where_txt, inst_prefix=""):
                 continue
             n += 1
             why = _sign_extends(lo)
+            if why is None and node.k == "CompoundAssignOperator":
+                # `acc |= hi << 32`: the low half is whatever acc was given before; look at its other definitions
+                acc = strip_casts(lo)
+                if acc is not None and acc.k == "DeclRefExpr":
+                    for d in func.walk():
+                        init = None
+                        if d.k == "VarDecl" and d.name == acc.name and d.c and d.c[0] is not None:
+                            init = d.c[0]
+                        elif d.k == "BinaryOperator" and d.op == "=" and strip_casts(d.c[0]) is not None and strip_casts(d.c[0]).k == "DeclRefExpr" \
+                                and strip_casts(d.c[0]).name == acc.name:
+                            init = d.c[1]
+                        if init is not None and d.line <= node.line:
+                            w = _sign_extends(init)
+                            if w is None:
+                                # the conversion to the accumulator's own 64-bit type is implicit in the assignment
+                                it = _ity(init)
+                                if it is not None and it[0] < 64 and it[1] and not _nonneg(init) and not (strip_casts(init).v is not None and strip_casts(init).v >= 0):
+                                    w = "`%s` has type %s and is converted to the 64-bit accumulator by the assignment" % (unparse(init)[:60], init.get("ty"))
+                            if w:
+                                why = "accumulator `%s` was initialised at line %d by a sign-extending conversion (%s)" % (acc.name, d.line, w)
             rep.check(why is None, rule, where_txt, "%slow-half-zero-extended" % inst_prefix,
                       "low half `%s` is zero-extended before it is OR-ed with the shifted high half" % unparse(lo)[:70],
                       "64-bit value assembled as `%s`: %s, so a low half with bit 31 set sign-extends and overwrites the high half with ones" %
